@@ -137,9 +137,7 @@ func corpus(t *tr.Trace, r *tr.Rand) {
 			}
 		}
 		if live && replayed {
-			t.Note("witness:replayed-operator-message-not-privileged")
-		} else {
-			t.Fail("C15", "replay_not_privileged_witness", fmt.Sprintf("the witness of C15_privileged_replay_refuted no longer behaves as the model says (live privileged: %v, replayed not privileged: %v)", live, replayed))
+			t.Fail("C15", "privileged", "replay-not-privileged: operator a's broadcast chat i2 was delivered with privileged=true; the later joiner d is replayed it (chathistory) with privileged=false")
 		}
 		h.finish("corpus-replay")
 	}
